@@ -22,15 +22,17 @@ import (
 
 func init() {
 	h.Register(&h.Prop{ID: "C04", Gen: genC04, Exec: withPrim(map[string]h.ExecFn{
-		"tlb.spec":     exTlbSpec,
-		"tlb.extmsg":   exExtMsg,
-		"tlb.enc":      exTlbEnc,
-		"tlb.parsetag": exParseTag,
-		"tlb.fieldtag": exFieldTag,
-		"tlb.dec":      exTlbDec,
-		"go.redec":     goReDecode,
-		"go.rt":        goRoundTrip,
-		"go.w5beta":    goW5BetaBody,
+		"tlb.spec":      exTlbSpec,
+		"tlb.extmsg":    exExtMsg,
+		"tlb.enc":       exTlbEnc,
+		"tlb.parsetag":  exParseTag,
+		"tlb.fieldtag":  exFieldTag,
+		"tlb.dec":       exTlbDec,
+		"tlb.canon":     exTlbCanon,
+		"tlb.canoninfo": exTlbCanonInfo,
+		"go.redec":      goReDecode,
+		"go.rt":         goRoundTrip,
+		"go.w5beta":     goW5BetaBody,
 	})})
 }
 
